@@ -202,8 +202,15 @@ class Gauss(Model):
             self.bounds = {n: [10.0 * i, 10.0 * i + 1.0 + i] for i, n in enumerate(self.names)}
         if variant == "flat-corner":
             self.bounds = {n: [-1.0, 1.0] for n in self.names}
+        if variant == "nan-wide":
+            # prior 1.5 sqrt(x0) on the unit box, written log(in_bounds) + ...: NaN (-inf + nan) for x0 < 0;
+            # new_point draws from a WIDER box with the matching density, so the rejection step must do the work
+            self.bounds = {n: [0.0, 1.0] for n in self.names}
 
     def log_prior(self, x):
+        if self.variant == "nan-wide":
+            with np.errstate(divide="ignore", invalid="ignore"):
+                return np.log(self.in_bounds(x), dtype="float") + np.log(1.5) + 0.5 * np.log(x[self.names[0]])
         if self.variant == "flat-corner":
             # the constant density of the uniform prior, NOT -inf outside the bounds (verify_model accepts it)
             lp = np.zeros(x.size)
@@ -221,6 +228,8 @@ class Gauss(Model):
                 ll += -0.5 * ((x[n] - c) / 0.2) ** 2
             elif self.variant == "flat-corner":
                 ll += -0.5 * ((x[n] - 1.0) / 0.3) ** 2          # posterior mass at the corner (1, 1)
+            elif self.variant == "nan-wide":
+                ll += -0.5 * ((x[n] - (0.05 if n == self.names[0] else 0.5)) / 0.2) ** 2
             else:
                 ll += -0.5 * x[n] ** 2 - 0.5 * np.log(2 * np.pi)
         return ll
@@ -228,10 +237,15 @@ class Gauss(Model):
     def new_point(self, N=1):
         a = empty_structured_array(N, names=self.names)
         for n in self.names:
-            a[n] = np.random.uniform(self.bounds[n][0], self.bounds[n][1], N)
+            if self.variant == "nan-wide":
+                a[n] = np.random.uniform(-0.5, 1.5, N)
+            else:
+                a[n] = np.random.uniform(self.bounds[n][0], self.bounds[n][1], N)
         return a
 
     def new_point_log_prob(self, x):
+        if self.variant == "nan-wide":
+            return np.full(x.size, -len(self.names) * np.log(2.0))
         return self.log_prior(x)
 
 
